@@ -53,6 +53,15 @@ def _strings(v):
 
 
 def check(case, ctx):
+    if "no-trailing-backslash" in ctx.flags and case["node"]["k"] == "tmpl":
+        # known finding K7: a parameter value ending in a backslash swallows the brace of the reference next to it
+        hit = [p for p in case["node"]["params"].values() if p["k"] == "val" and isinstance(p["v"], str) and p["v"].endswith("\\")]
+        if hit:
+            case = copy.deepcopy(case)
+            for p in case["node"]["params"].values():
+                if p["k"] == "val" and isinstance(p["v"], str) and p["v"].endswith("\\"):
+                    p["v"] = p["v"] + "b"
+            ctx.exclude("no-trailing-backslash")
     spec = {"defs": case.get("defs", []), "root": case["node"]}
     o = case["options"]
     r = Ref(spec).run(o)
@@ -173,6 +182,9 @@ def cases(draw):
         text_refs = [r for r in find_refs(s) if not r.startswith(":") and r in U.REF_ORDER]
 
         def param():
+            if draw(st.integers(0, 5)) == 0:
+                # a constant whose string form contains braces / backslashes: it is text, never a reference
+                return {"k": "val", "v": draw(st.sampled_from(["{", "}", "}{", "{A}", "a\\{b\\}", "\\", "{:p0:}", "{x", ["{A}"], {"k": "}"}]))}
             p = g.opt(hashable=True) if draw(st.booleans()) else {"k": "opt", "key": draw(st.sampled_from(U.FLAT + ["S.X"]))}
             if text_refs and draw(st.integers(0, 2)) == 0:
                 # the parameter reads a key the text references too (possibly under pinned options)
@@ -197,7 +209,7 @@ def cases(draw):
             node["default"] = {"t": "const", "v": node["default"]["s"]}
     case = {"node": node, "defs": g.defs, "options": o}
     if kind == "tmpl":
-        pkeys = [p["key"] if p["k"] == "opt" else p["body"]["key"] for p in node["params"].values()]
+        pkeys = [p["key"] if p["k"] == "opt" else p["body"]["key"] for p in node["params"].values() if p["k"] != "val"]
         o2 = o
         for _ in range(draw(st.integers(1, 2))):
             o2, _e = draw(U.edit_dict(o2, allow_unmentioned=False, focus=pkeys + [r for r in find_refs(s) if not r.startswith(":")]))
